@@ -1302,6 +1302,21 @@ crafted(struct doc *d, int which)
 				 "LOCATION:/tmp\r/x\r\nDTSTART:20200301T100000Z\r\nX-ECHS-OFILE:/tmp/o\rut\r\nEND:VEVENT\r\nEND:VCALENDAR\r\n");
 			break;
 		}
+		if (which == 19 + 45) {
+			snprintf(d->name, sizeof(d->name), "list-valued lines (BYDAY, RDATE, EXDATE, X-GA-STATE) behind longer lines that are full of commas and weekday names");
+			doc_puts(d, "BEGIN:VCALENDAR\nBEGIN:VEVENT\nUID:stale1\n"
+				 "SUMMARY:echo run the report on MO,TU,WE,TH,FR,SA,SU,MO,TU,WE,TH,FR,SA,SU,MO,TU,WE,TH,FR,SA,SU\n"
+				 "DTSTART:20200106T100000Z\n"
+				 "RRULE:FREQ=WEEKLY;COUNT=6;BYDAY=MO\n"
+				 "DESCRIPTION:,20200107T100000Z,20200108T100000Z,20200109T100000Z,20200110T100000Z,20200111T100000Z\n"
+				 "RDATE:20200107T100000Z\n"
+				 "LOCATION:/tmp/,busy,away,20200120T100000Z,20200127T100000Z,20200203T100000Z\n"
+				 "EXDATE:20200113T100000Z\n"
+				 "X-ECHS-OFILE:/tmp/out,busy,away,idle,busy,away,idle\n"
+				 "X-GA-STATE:busy\n"
+				 "END:VEVENT\nEND:VCALENDAR\n");
+			break;
+		}
 		return 0;
 	}
 	return 1;
@@ -1378,7 +1393,7 @@ enum_docs(bool samples)
 			break;
 		}
 		n = D.n;
-		cur_slug = samples ? NULL : i < (int)(sizeof(crafted_slug) / sizeof(*crafted_slug)) ? crafted_slug[i] : i == 19 + 44 ? "lone-cr" : "long-line-escapes";
+		cur_slug = samples ? NULL : i < (int)(sizeof(crafted_slug) / sizeof(*crafted_slug)) ? crafted_slug[i] : i == 19 + 44 ? "lone-cr" : i == 19 + 45 ? "stale-commas" : "long-line-escapes";
 		vd_shape("%s/load", D.fam);
 		if (vd_next()) {
 			const unsigned sv = parts_mask;
